@@ -129,7 +129,9 @@ impl<T: Send + Sync> AtomicIter<T> for ConIterOfVec<T> {
     }
 
     fn early_exit(&self) {
-        self.counter().store(self.vec_len)
+        // reserves all remaining elements at once, as a chunk, and drops them;
+        // storing the length into the counter would leave them without an owner: never dropped
+        drop(self.fetch_n(self.vec_len));
     }
 }
 
